@@ -13,21 +13,40 @@ const RaceEnabled = true
 // The shims announce exactly the happens-before edges the program's own synchronisation creates;
 // the scheduler's token hand-offs are hidden from ThreadSanitizer (RaceDisable around them).
 
-func raceAcquire[T any](p *T)      { runtime.RaceAcquire(unsafe.Pointer(p)) }
-func raceRelease[T any](p *T)      { runtime.RaceRelease(unsafe.Pointer(p)) }
+//go:norace
+func raceAcquire[T any](p *T) { runtime.RaceAcquire(unsafe.Pointer(p)) }
+
+//go:norace
+func raceRelease[T any](p *T) { runtime.RaceRelease(unsafe.Pointer(p)) }
+
+//go:norace
 func raceReleaseMerge[T any](p *T) { runtime.RaceReleaseMerge(unsafe.Pointer(p)) }
-func raceDisable()                 { runtime.RaceDisable() }
-func raceEnable()                  { runtime.RaceEnable() }
+
+//go:norace
+func raceDisable() { runtime.RaceDisable() }
+
+//go:norace
+func raceEnable() { runtime.RaceEnable() }
 
 // spawn edge: everything the parent did before `go` happens before the child starts.
+//
+//go:norace
 func raceSpawn(t *Thread) { runtime.RaceRelease(unsafe.Pointer(&t.id)) }
+
+//go:norace
 func raceStart(t *Thread) { runtime.RaceAcquire(unsafe.Pointer(&t.id)) }
 
 var execChain byte
 
 // executions of one process are chained so that globals do not race across executions
+//
+//go:norace
 func execBegin() { runtime.RaceAcquire(unsafe.Pointer(&execChain)) }
-func execEnd()   { runtime.RaceReleaseMerge(unsafe.Pointer(&execChain)) }
+
+//go:norace
+func execEnd() { runtime.RaceReleaseMerge(unsafe.Pointer(&execChain)) }
 
 // RaceErrors returns the number of race reports so far.
+//
+//go:norace
 func RaceErrors() int { return runtime.RaceErrors() }
